@@ -68,6 +68,9 @@ class Sched:
         self.call_marks = [0]    # log position at which each call started
         self.escaped = []        # exceptions that escaped a scheduled background thread
         self.keys = {}           # read_wait: UniqueKey number -> lineage of the process that owns it
+        self.rw_programs = []    # phase 6: per started read_wait process, the op sequence of the REAL MyProcessLine.run
+        self.rw_prog_of = {}     # id(thread record) -> that process' op list
+        self.rw_starts = []      # phase 6: per process start with the REAL MyProcessLine.start: (store given, store non-empty, registered)
         self.np_probe = None     # callable returning the current `_n_procs` (or None)
         self.none_code = None    # how a `None` popped from out_queue by the caller is reported (see c08.py)
 
@@ -395,6 +398,8 @@ class FakeQueue:
                 self.q.append(x)
                 if type(x).__name__ == "UniqueKey":
                     s.act("wKey", w=me.lineage)          # read_wait: the process writes its key
+                    if id(me) in s.rw_prog_of:
+                        s.rw_prog_of[id(me)].append(1)
                 else:
                     s.act("wPut", w=me.lineage, x=self._obs_out(x))
             else:
@@ -460,12 +465,46 @@ class FakeContext:
 class _Send:
     def __init__(self):
         self.value = None
+        self.hook = None
 
     def send(self, v):
         self.value = v
+        if self.hook is not None:
+            self.hook(v)
 
     def close(self):
         pass
+
+
+class _KilledWaiting(BaseException):
+    """the process dies while it waits for the caller to read its key (fault `kill_wait`)"""
+
+
+class _WaitProxy:
+    """the event a read_wait process waits on (phase 6: handed to the REAL MyProcessLine.run): delegates to the FakeEvent the real `start`
+    registered; `sched.kill_wait` = ordinals of the waiting processes that die while they wait — the scheduler chooses the moment (one more
+    yield point); if the caller has read the key by then the process just exits"""
+
+    def __init__(self, sched, ev):
+        self.sched, self.ev = sched, ev
+
+    def set(self):
+        self.ev.set()
+
+    def is_set(self):
+        return self.ev.is_set()
+
+    def wait(self, timeout=None):
+        sched = self.sched
+        if getattr(self, "prog", None) is not None:
+            self.prog.append(2)
+        nwait = getattr(sched, "nwaits", 0)
+        sched.nwaits = nwait + 1
+        if nwait in getattr(sched, "kill_wait", ()):
+            sched.yield_point(lambda: True)
+            if not self.ev.flag:
+                raise _KilledWaiting()
+        return self.ev.wait()
 
 
 class _Child:
@@ -508,7 +547,32 @@ def make_fakes(sched, real_process_line, real_thread_line):
             # read_wait (what MyProcessLine.start does): an event + a UniqueKey registered in the caller's dict
             rw = self._read_waiters
             wait_ev = wait_key = None
-            if rw is not None:
+            shim = None
+            real_my = getattr(sched, "real_my_process_line", None)
+            if rw is not None and real_my is not None:
+                # phase 6: the REAL `MyProcessLine.start` is executed on a shim object of the real class (only `ProcessLine.start`, which would
+                # create the OS process, is a no-op while it runs): it creates the event (the substituted spawn_context gives a FakeEvent) and the
+                # UniqueKey and registers them in the caller's dict; the REAL `MyProcessLine.run` is executed on the same shim in `body` below
+                shim = object.__new__(real_my)
+                shim._read_waiters = rw
+                shim._line, shim._send = child._line, child._send
+                n_before = len(rw)
+                saved_start = real_process_line.__dict__["start"]
+                real_process_line.start = lambda self_: None
+                try:
+                    real_my.start(shim)
+                finally:
+                    real_process_line.start = saved_start
+                wait_ev, wait_key = getattr(shim, "_wait", None), getattr(shim, "_wait_key", None)
+                sched.rw_starts.append({"store": True, "non_empty": n_before > 0,
+                                        "registered": bool(wait_key is not None and wait_ev is not None and rw.get(wait_key) is wait_ev),
+                                        "store_removed": not hasattr(shim, "_read_waiters")})
+                if wait_key is not None:
+                    sched.keys[wait_key._n] = w
+                    shim._wait_key = pickle.loads(pickle.dumps(wait_key))      # the child works on a pickled copy
+                if wait_ev is not None:
+                    shim._wait = _WaitProxy(sched, wait_ev)
+            elif rw is not None:
                 import coba.pipes.multiprocessing as _cpm
                 wait_ev = FakeEvent(sched)
                 wait_key = _cpm.UniqueKey()
@@ -528,6 +592,43 @@ def make_fakes(sched, real_process_line, real_thread_line):
                     sched.act("wKilled", w=w, spawned=1)      # model action `wCrash w` from the W state `spawned`
                     return
                 sched.act("wBegin", w=w)
+                if shim is not None:
+                    # phase 6: REAL `MyProcessLine.run` = real `ProcessLine.run` (line + exception capture + send), then — iff the real `start`
+                    # created `_wait` — write the key through the child's REAL QueueSink and wait on the event
+                    prog = []          # what the REAL run() does, as codes of the model's RWOp: 0 line ended (send), 1 key written, 2 waits
+                    sched.rw_programs.append({"w": w, "has_wait": hasattr(shim, "_wait"), "ops": prog, "done": False})
+                    rec = sched.rw_programs[-1]
+                    sched.rw_prog_of[id(sched.me())] = prog
+                    if isinstance(getattr(shim, "_wait", None), _WaitProxy):
+                        shim._wait.prog = prog
+
+                    def after_send(v):
+                        prog.append(0)
+                        ex, tb, po = pickle.loads(pickle.dumps(v))
+                        self._exception, self._traceback, self._poisoned = ex, tb, po
+                        if ex is not None:
+                            sched.act("wRaise", w=w)
+                        elif not po:
+                            sched.act("wRetire", w=w)
+                    child._send.hook = after_send
+                    try:
+                        real_my.run(shim)
+                    except BaseException as e:
+                        if type(e).__name__ == "WorkerKilled":
+                            self._alive = False
+                            self.exitcode = -9
+                            sched.act("wKilled", w=w)
+                            return
+                        if isinstance(e, _KilledWaiting):
+                            self._alive = False
+                            self.exitcode = -9
+                            sched.act("wKilledKey", w=w)
+                            return
+                        raise
+                    rec["done"] = True
+                    self._alive = False
+                    self.exitcode = 0
+                    return
                 try:
                     real_process_line.run(child)       # REAL code: line.run() + exception capture + send
                 except BaseException as e:
